@@ -99,4 +99,21 @@ func init() {
 	)
 	reg(Check{Property: "C08", Harnesses: c08,
 		Assumptions: []string{"allocation cut: after a make() with a symbolic size the path continues under size <= 48 (64 for JPEG 2000/RLE) elements; larger declared sizes are outside the C08 claim", "inputs are the stated templates: a valid stream with one symbolic window, or a short free string; arbitrary long inputs are outside the claim"}})
+
+	c17 := func(pkg, fn, desc string, stubs ...string) Harness {
+		return Harness{Pkg: pkg, Fn: fn, Desc: desc, Stubs: stubs, Bounds: [2]string{"all int arguments as 64-bit symbols; buffer lengths {0,1,5,12}", "same"}}
+	}
+	cutNote := "sample loops after the validation prefix are replaced by no-ops under the engine (acceptance condition only); the native replay runs the real encoder with the model's arguments"
+	reg(Check{Property: "C17",
+		Assumptions: []string{"'unrepresentable' is the predicate written in each harness from the documented limits (dimensions 1..65535 for T.81/T.87 formats, 32-bit for JPEG 2000; components; bit depth; buffer >= width*height*components*bytesPerSample; quality; NEAR; predictor; levels; code-block size)"},
+		Harnesses: []Harness{
+			c17("jpeg/lossless", "VerifC17Args", "lossless.Encode with all scalar arguments symbolic: accepted => representable", cutNote),
+			c17("jpeg/lossless14sv1", "VerifC17Args", "lossless14sv1.Encode, same", cutNote),
+			c17("jpeg/baseline", "VerifC17Args", "baseline.Encode, same (quality 1..100)", cutNote),
+			c17("jpegls/lossless", "VerifC17Args", "jpegls/lossless.Encode, same", cutNote),
+			c17("jpegls/nearlossless", "VerifC17Args", "nearlossless.Encode, same (NEAR)", cutNote),
+			c17("jpeg2000", "VerifC17Args", "jpeg2000 validateParams with every integer field symbolic + convertPixelData buffer check on images <= 3x2"),
+			{Pkg: "rle", Fn: "VerifC17RLE", Desc: "rle.Codec.Encode over 10 BitsAllocated x 5 SamplesPerPixel x 3x3 sizes x 5 buffer lengths with symbolic PlanarConfiguration and contents: error or a representable frame, never a panic",
+				Bounds: [2]string{"frames <= 2x2 pixels, buffers <= 12 bytes", "same"}},
+		}})
 }
